@@ -133,6 +133,10 @@ example :
     maskedOutputs (freeAlg Nat) cfg 0 (World.init ⟨0, []⟩) h₁
       = maskedOutputs (freeAlg Nat) cfg 2 (World.init ⟨0, [77]⟩) h₂ := by decide
 
+/-- non-vacuity of `WF` and `Acyclic`: the harness's initial world; a counter. -/
+example : WF (World.init (0 : Nat)) := init_wf 0
+example : Acyclic ctr := ctr_acyclic
+
 /-! ## successive calls advance the stream -/
 
 /-- If the own call sequence of a seeded model in a history (whatever else the history contains)
